@@ -111,6 +111,10 @@ class PolicyEnv:
         # change is always newer than anything created with the real time
         import time
         self.clock = int(time.time()) + 1000000
+        # linked: every file below a policy directory is a symbolic link to
+        # a regular file kept elsewhere (the layout of a mounted ConfigMap);
+        # edits go to the file behind the link
+        self.linked = False
 
     def close(self):
         self.scratch.close()
@@ -123,6 +127,11 @@ class PolicyEnv:
         import yaml
         p = self.path(rel)
         os.makedirs(os.path.dirname(p), exist_ok=True)
+        fresh_entry = not os.path.lexists(p)
+        if self.linked and fresh_entry and os.path.dirname(rel):
+            store = os.path.join(self.dir, '.store')
+            os.makedirs(store, exist_ok=True)
+            os.symlink(os.path.join(store, rel.replace('/', '__')), p)
         if raw is None:
             if fmt == 'json':
                 raw = json.dumps(rules, indent=1)
@@ -131,7 +140,7 @@ class PolicyEnv:
                     if rules else ''
         with open(p, 'w') as f:
             f.write(raw)
-        self.tick(p)
+        self.tick(p, entry_changed=fresh_entry)
         return p
 
     def mkdir(self, rel):
@@ -141,18 +150,20 @@ class PolicyEnv:
         os.utime(p, (self.clock, self.clock))
         return p
 
-    def tick(self, p=None):
-        """Advance the virtual clock; stamp *p* and its directory with it."""
+    def tick(self, p=None, entry_changed=False):
+        """Advance the virtual clock; stamp *p* with it (the file behind
+        it when *p* is a link) and, as the file system does, its directory
+        only when the entry was created."""
         self.clock += 10
         if p is not None and os.path.exists(p):
             os.utime(p, (self.clock, self.clock))
             d = os.path.dirname(p)
-            if d != self.dir:
+            if d != self.dir and entry_changed:
                 os.utime(d, (self.clock, self.clock))
 
     def remove(self, rel):
         p = self.path(rel)
-        if os.path.exists(p):
+        if os.path.lexists(p):
             os.unlink(p)
             d = os.path.dirname(p)
             self.clock += 10
